@@ -153,6 +153,7 @@ def run(ctx):
     ctx.attempt(step_commit_rule, ctx)
     ctx.attempt(derived_parameters_rule, ctx)
     ctx.attempt(validate_before_commit_rule, ctx)
+    ctx.attempt(scheme_switch_frame_rule, ctx)
     ctx.attempt(newton_loop_rule, ctx)
     # 'for all step sequences including switching algorithm or step size between steps': no memo of a scheme-dependent quantity survives a change of the scheme
     from ..shared import memo_rule as _memo_rule, cached_param_rule as _cached_param_rule
@@ -480,7 +481,10 @@ def step_commit_rule(ctx):
         def setsol(pt, *a, log=log):
             log.append(("commit", a))
 
-        obj = XObj(simu, {"isNonLinear": nonlinear, "_Solver_Solve_Newton_Raphson": lambda pt, U=U: (U, 3, 0.0, []), "_Solver_Update_solutions": update, "_Set_solutions": setsol})
+        originals = [list(x.data) for x in upd]
+        known = XArray((1,), [1], "i")  # dof 1 is prescribed (a moving support: its rates are what the corrector says)
+        obj = XObj(simu, {"isNonLinear": nonlinear, "_Solver_Solve_Newton_Raphson": lambda pt, U=U: (U, 3, 0.0, []), "_Solver_Update_solutions": update, "_Set_solutions": setsol,
+                          "Bc_dofs_Dirichlet": lambda pt=None: known, "Bc_dofs_known_unknown": lambda pt=None: (known, XArray((1,), [0], "i")), "Bc_values_Dirichlet": lambda pt=None: XArray((1,), [Poly.var("ubar")])})
 
         def hook(fn, args, kwargs, U=U):
             fi = fn if isinstance(fn, FuncInfo) else getattr(fn, "finfo", None)
@@ -505,6 +509,12 @@ def step_commit_rule(ctx):
             bad = "the commit does not receive the corrector's (u, v, a) in that order"
         elif ret is not upd[0]:
             bad = "the step does not return the new displacement"
+        else:
+            for nm, x, orig in zip("uva", log[1][1], originals):
+                if list(x.data) != orig:
+                    k = next(i for i, (p_, q_) in enumerate(zip(x.data, orig)) if p_ != q_)
+                    bad = f"the committed {nm} differs from what the corrector returned (dof {k}{', a prescribed dof' if k == 1 else ''}: {x.data[k]!r} instead of {orig[k]!r}): the stored state no longer satisfies the scheme's update relations there"
+                    break
         if bad:
             r.fail(f.qualname, f"sequence:{'newton' if nonlinear else 'linear'}", f.file, f.lineno, "_Solver_Solve_problemType", f"{'Newton' if nonlinear else 'linear'} path: {bad}")
         else:
@@ -689,3 +699,57 @@ def validate_before_commit_rule(ctx):
             r.fail(f.qualname, "store-before-validation", f.file, bad.lineno, f"_Simu.{nm}", f"`{norm_text(bad)[:70]}` can reject the call after the setter has already stored part of the new configuration: a rejected call leaves the new algorithm with the parameters of the previous one")
         else:
             r.ok(f"{nm}: every check precedes every store")
+
+
+def scheme_switch_frame_rule(ctx):
+    """R5.14: 'for any previous state': selecting a time scheme (again, or another one, between two steps of a run) only
+    changes the scheme: the committed displacement, velocity and acceleration -- the 'previous state' the next step's
+    update relations start from -- are left as they are.  The Solver_Set_*_Algorithm setters are interpreted on a
+    simulation object holding symbolic state vectors, for switches between schemes and for a re-selection; every
+    attribute other than the scheme descriptor slots must be unchanged afterwards (by value)."""
+    import copy
+
+    from ..xeval import Interp, XObj, EnumVal, XRaise
+    from ..xarray import XArray
+
+    repo = ctx.repo
+    simu = repo.cls(SIMU)
+    r = ctx.rule("R5.14", "selecting a time scheme leaves the committed u, v, a (and every other attribute than the scheme descriptor) unchanged, for switches between schemes and re-selections", min_instances=4)
+    members = repo.enum_members(ALGO)
+    ev = lambda nm: EnumVal(repo.cls(ALGO), nm, members[nm])
+    scheme_slots = {simu.mangle(n) for n in ("__algo", "__parabolicParams", "__hyperbolicParams")}
+    cases = [("Solver_Set_Hyperbolic_Algorithm", "newmark", dict(dt=Q(1, 10), algo=ev("midpoint"))), ("Solver_Set_Hyperbolic_Algorithm", "midpoint", dict(dt=Q(1, 10), algo=ev("newmark"))),
+             ("Solver_Set_Hyperbolic_Algorithm", "newmark", dict(dt=Q(1, 20), algo=ev("newmark"))), ("Solver_Set_Hyperbolic_Algorithm", "elliptic", dict(dt=Q(1, 10), algo=ev("hht"), alpha=Q(1, 5))),
+             ("Solver_Set_Parabolic_Algorithm", "elliptic", dict(dt=Q(1, 10), alpha=Q(1, 2))), ("Solver_Set_Parabolic_Algorithm", "newmark", dict(dt=Q(1, 10)))]
+
+    def snap(v):
+        if isinstance(v, XArray):
+            return ("arr", v.shape, tuple(v.data))
+        if isinstance(v, dict):
+            return ("dict", tuple((repr(k), snap(x)) for k, x in v.items()))
+        if isinstance(v, (list, tuple)):
+            return (type(v).__name__, tuple(snap(x) for x in v))
+        return ("val", repr(v))
+
+    for mname, old, kwargs in cases:
+        f = simu.methods.get(mname)
+        if f is None:
+            continue
+        r.instance(fn=f.qualname)
+        vec = lambda t: XArray((2,), [Poly.var(f"{t}0"), Poly.var(f"{t}1")])
+        attrs = {simu.mangle("__algo"): ev(old), simu.mangle("__dict_u_n"): {"pt": vec("u")}, simu.mangle("__dict_v_n"): {"pt": vec("v")}, simu.mangle("__dict_a_n"): {"pt": vec("a")},
+                 simu.mangle("__hyperbolicParams"): (Q(1, 7), Q(1, 4), Q(1, 2), Q(1, 2)), simu.mangle("__parabolicParams"): (Q(1, 7), Q(1, 2)), "isNonLinear": False, "problemType": "pt"}
+        obj = XObj(simu, attrs)
+        before = {k: snap(v) for k, v in obj.attrs.items()}
+        try:
+            Interp(repo).call_function(f, [], dict(kwargs), self_obj=obj)
+        except XRaise as e:
+            r.fail(f.qualname, f"switch:{old}->{mname}", f.file, f.lineno, f"_Simu.{mname}", f"from {old}: raises {e}")
+            continue
+        changed = sorted(k for k in set(before) | set(obj.attrs) if k not in scheme_slots and before.get(k) != (snap(obj.attrs[k]) if k in obj.attrs else None))
+        label = f"{old}->{getattr(kwargs.get('algo'), 'name', 'parabolic')}"
+        if changed:
+            k = changed[0]
+            r.fail(f.qualname, f"switch:{label}:{k.split('__')[-1]}", f.file, f.lineno, f"_Simu.{mname}", f"selecting the scheme ({label}) changes `{k}` from {before.get(k)} to {snap(obj.attrs[k]) if k in obj.attrs else 'deleted'}: the next step no longer starts from the state the previous step returned (update relations and energy balance broken at the switch)")
+        else:
+            r.ok(f"{mname} ({label}): only the scheme descriptor changes")
